@@ -57,7 +57,7 @@ def main():
                          "non-trivial = inputs on which the real parser returned a tree" % (world["maxtok"], len(toks), len(uniq)))
     chk.notes["exhaustive"] = True
     chk.assumptions += ["spec/grammar_frozen.json is the reference language (bootstrapped from the pinned grammar.peg, reviewed by hand)",
-                        "escape forms \\u, \\U and octal inside double-quoted literals are not modelled (inputs using them are skipped)"]
+                        "escape forms \\u and \\U are followed for ASCII and for 22 listed code points (other code points: input skipped); byte escapes that may combine into one UTF-8 rune are skipped"]
     return chk.finish()
 
 
